@@ -275,7 +275,7 @@ def ok_discriminant(ty):
         return 0
     if ty.startswith("core::option::Option<"):
         return 1
-    if ty.startswith("core::ops::ControlFlow<"):
+    if re.match(r"^core::ops(::control_flow)?::ControlFlow<", ty):
         return 0
     return None
 
@@ -697,3 +697,19 @@ def has_type(args, name):
         if base == name or base.endswith("::" + name) or a == name or a.endswith("::" + name):
             return True
     return False
+
+
+def names2(fr):
+    """all two-segment spellings of a callee: by impl type and by trait, declared and resolved"""
+    out = set()
+    if fr is None:
+        return out
+    for n in (fr.get("path"), fr.get("resolved")):
+        if n:
+            out.add(tail(n, 2))
+            out.add(mir.tail2(n))
+    return out
+
+
+def is_call(fr, *names):
+    return bool(names2(fr) & set(names))
